@@ -5,7 +5,7 @@ import re
 from mc.core import UnitResult
 
 ID = "C11"
-PARTS = ['comment', 'disable', 'disable-other', 'route-cli', 'route-override', 'route-override-longer', 'route-override-parent', 'route-override-prefix', 'route-override-child', 'route-top-level', 'hdisable', 'hcomment']      # outcome classes every run must produce (guards against a part of the exploration silently not running)
+PARTS = ['comment', 'disable', 'disable-other', 'route-cli', 'route-override', 'route-override-longer', 'route-override-parent', 'route-override-prefix', 'route-override-child', 'route-top-level', 'hdisable', 'hcomment', 'two-modules-off', 'two-modules-on']      # outcome classes every run must produce (guards against a part of the exploration silently not running)
 RULE = ("state = base program (every selection of <= 2/3 diagnostic lines from a pool incl. two codes on one line, a multi-line statement, first-line and last-line errors, the marker "
         "text inside a string literal) + one event: disable any subset of the occurring codes, or insert one/two ignore comments at any line in trailing or own-line form, bare / "
         "matching code / other code, with unused_ignore and bare_ignore on or off; real: the failures of NameCheckVisitor.check(); oracle: projection model — disabling removes "
@@ -84,7 +84,7 @@ def route_programs(tier):
 def units(tier):
     n = len(base_programs(tier))
     nr = len(route_programs(tier))
-    return [("settings", tier, i, min(n, i + CH)) for i in range(0, n, CH)] + [("routes", tier, i, min(nr, i + 2)) for i in range(0, nr, 2)] + [("harv", tier, i, i + HSTEP) for i in range(0, 920, HSTEP)]
+    return [("settings", tier, i, min(n, i + CH)) for i in range(0, n, CH)] + [("routes", tier, i, min(nr, i + 2)) for i in range(0, nr, 2)] + [("harv", tier, i, i + HSTEP) for i in range(0, 920, HSTEP)] + [("two", tier, 0, 0)]
 
 
 def _cli(args, cwd):
@@ -171,6 +171,93 @@ def _routes(res, tier, lo, hi, only_event=None):
                                       "disabling %s through the %s route on\n%s\nexpected %s\ngot %s %s" % (c, route, src, exp, got, err))
         finally:
             shutil.rmtree(d, ignore_errors=True)
+
+
+OFF_BY_DEFAULT = ["implicit_any", "missing_return_annotation", "value_always_true"]
+TWO_MOD = {"a.py": "class K:\n    def m(self) -> None:\n        print(self.nope_a)\ndef f() -> None:\n    undefined_a\n",
+           "b.py": "class L:\n    def m(self) -> None:\n        print(self.nope_b)\ndef g(p):\n    undefined_b\n    return p\n"}
+
+
+def _cli_files(args, cwd):
+    """like _cli, with the file's base name in front of every entry"""
+    import json
+    import os
+    import subprocess
+    import sys
+    out = os.path.join(cwd, "out.json")
+    if os.path.exists(out):
+        os.remove(out)
+    env = dict(os.environ, PYTHONPATH=os.environ.get("VERIF_REPO", "/repo"))
+    p = subprocess.run([sys.executable, "-m", "pyanalyze", "--json-output", out] + args, cwd=cwd, env=env, stdout=subprocess.PIPE, stderr=subprocess.PIPE, text=True, timeout=300)
+    if not os.path.exists(out):
+        return ([] if p.returncode == 0 else None), p.stderr[-400:]
+    with open(out) as f:
+        data = json.load(f)
+    return sorted((os.path.basename(e.get("filename") or e.get("absolute_filename") or "?"), e["code"], e.get("lineno")) for e in data), ""
+
+
+def _two_modules(res, only=None):
+    """one run of the real command line over a package with two modules: a code switched (off / on) for ONE module through an override must change that
+    module's diagnostics only; codes that are off by default switched on through an override give what the top-level switch gives for that module"""
+    import os
+    import shutil
+    import tempfile
+    d = tempfile.mkdtemp(prefix="verif-c11t-", dir="/dev/shm")
+    try:
+        pkg = "vtwo%d" % os.getpid()
+        os.mkdir(os.path.join(d, pkg))
+        open(os.path.join(d, pkg, "__init__.py"), "w").close()
+        for fn, text in TWO_MOD.items():
+            with open(os.path.join(d, pkg, fn), "w") as f:
+                f.write(text)
+        files = [os.path.join(d, pkg, fn) for fn in sorted(TWO_MOD)]
+        head = '[tool.pyanalyze]\nimport_paths = ["%s"]\n' % d
+
+        def run(extra):
+            cfg = os.path.join(d, "c.toml")
+            with open(cfg, "w") as f:
+                f.write(head + extra)
+            return _cli_files(["--config-file", cfg] + files, d)
+        base, err = run("")
+        res.transitions += 1
+        if not base:
+            res.violation({"kind": "cli-produced-no-output", "route": "two-modules"}, {"mode": "two", "event": ["baseline"], "order": 3 * 10 ** 7}, "no diagnostics for the two-module package: %s" % err)
+            return
+        res.states += 1
+        for code in sorted({b[1] for b in base}):
+            for target in ("a", "b"):
+                ev = ["off", code, target]
+                if only is not None and ev != only:
+                    continue
+                got, err = run('[[tool.pyanalyze.overrides]]\nmodule = "%s.%s"\n%s = false\n' % (pkg, target, code))
+                exp = [b for b in base if not (b[0] == target + ".py" and b[1] == code)]
+                res.states += 1
+                res.transitions += 1
+                res.validated += 1
+                res.outcomes["two-modules-off:%s" % ("projection" if got == exp else "differs")] += 1
+                if got != exp:
+                    res.violation({"kind": "disable-not-projection", "route": "two-modules", "in_string": "0", "lost": ",".join(sorted({"%s:%s" % (g[0], g[1]) for g in exp if got is None or g not in got})),
+                                   "extra": ",".join(sorted({"%s:%s" % (g[0], g[1]) for g in (got or []) if g not in exp}))}, {"mode": "two", "event": ev, "order": 3 * 10 ** 7},
+                                  "override %s = false for module %s only, in a run over a.py and b.py:\nexpected %s\ngot      %s %s" % (code, target, exp, got, err))
+        for code in OFF_BY_DEFAULT:
+            on_everywhere, err = run("%s = true\n" % code)
+            res.transitions += 1
+            for target in ("a", "b"):
+                ev = ["on", code, target]
+                if only is not None and ev != only:
+                    continue
+                got, err = run('[[tool.pyanalyze.overrides]]\nmodule = "%s.%s"\n%s = true\n' % (pkg, target, code))
+                exp = sorted(list(base) + [b for b in (on_everywhere or []) if b[0] == target + ".py" and b[1] == code])
+                res.states += 1
+                res.transitions += 1
+                res.validated += 1
+                res.outcomes["two-modules-on:%s" % ("projection" if got == exp else "differs")] += 1
+                if got != exp:
+                    res.violation({"kind": "enable-not-projection", "route": "two-modules", "code": code, "lost": ",".join(sorted({"%s:%s" % (g[0], g[1]) for g in exp if got is None or g not in got})),
+                                   "extra": ",".join(sorted({"%s:%s" % (g[0], g[1]) for g in (got or []) if g not in exp}))}, {"mode": "two", "event": ev, "order": 3 * 10 ** 7},
+                                  "override %s = true for module %s only:\nexpected (top-level switch, restricted to that module) %s\ngot %s %s" % (code, target, exp, got, err))
+    finally:
+        shutil.rmtree(d, ignore_errors=True)
 
 
 def _check(src, settings=None, key="default"):
@@ -447,6 +534,9 @@ def run_unit(unit):
     if kind == "harv":
         _harv(res, tier, lo, hi)
         return res
+    if kind == "two":
+        _two_modules(res)
+        return res
     if kind == "routes":
         _routes(res, tier, lo, hi)
         return res
@@ -457,6 +547,9 @@ def run_unit(unit):
 
 def replay(case):
     res = UnitResult()
+    if case.get("mode") == "two":
+        _two_modules(res, only=case["event"] if case["event"] != ["baseline"] else None)
+        return list(res.viol.values())
     if case.get("mode") == "harv":
         H = _hprogs()
         i = [n for n, _, _ in H].index(case["name"])
